@@ -180,7 +180,8 @@ theorem C12_separator_query_titles_std (S : Sorter) (hS : SorterOK S) {name : St
 /-- **C12 at the top-level API, hypothesis on the raw query.** If the raw query contains no letter or digit and
     none of its characters takes part in a normalisation pattern of the language of store `id`, then after
     `run_search(id, q)` — until the next search on `id` — the buffer holds exactly `min(limit, n)` results
-    (`limit` in force at the search, `n` records added to `id` since its creation). -/
+    (`limit` in force at the search, `n` records added to `id` since its creation or, if it was cleared with
+    `clearStore id`, since the last clear). -/
 theorem C12_api_no_alnum_query (S : Sorter) (hS : SorterOK S) (envs : Nat → Env) (hE : EnvsOK envs)
     (pre post later : List RegOp) (id lang : Nat) (q : List Nat)
     (hv : Registry.allValid S srcProg envs Registry.empty
